@@ -287,7 +287,18 @@ func (im *impl) exec(f []string) (res string) {
 		if err != nil {
 			return errStr(err)
 		}
-		return "f:" + strconv.Itoa(int(fl))
+		// the flag word and what its readers (KeyFlags.HasXxx) say, in the order of FlagPreds.preds
+		preds := []bool{fl.HasAssertExist(), fl.HasAssertNotExist(), fl.HasAssertUnknown(), fl.HasAssertionFlags(),
+			fl.HasPresumeKeyNotExists(), fl.HasLocked(), fl.HasLockedInShareMode(), fl.HasNeedLocked(), fl.HasLockedValueExists(),
+			fl.HasNeedCheckExists(), fl.HasPrewriteOnly(), fl.HasIgnoredIn2PC(), fl.HasReadable(),
+			fl.HasNeedConstraintCheckInPrewrite(), fl.HasNewlyInserted()}
+		w := 0
+		for i, b := range preds {
+			if b {
+				w |= 1 << uint(i)
+			}
+		}
+		return "f:" + strconv.Itoa(int(fl)) + ":" + strconv.Itoa(w)
 	case "len":
 		return "n:" + strconv.Itoa(mb.Len())
 	case "size":
